@@ -7,7 +7,10 @@ reference extrema and evaluated at 0..N-1.
 """
 import numpy as np
 
-from ..engine.explore import Outcome
+from ..engine.explore import Outcome, Refill, Holder
+
+_refill = Refill()
+_holder = Holder(depth=3)
 from . import signals
 
 PID = 'C05'
@@ -247,13 +250,18 @@ def check_case(case):
             nontriv = nontriv or len(L0) >= 2
             for pad in range(0, 6):
                 tag = '%s mode=%s pad_width=%d parabolic=%s' % (d, xmode, pad, parabolic)
-                xin = x_in.copy()
+                # a caller-owned buffer, used twice in a row with different contents (previous contents first)
+                xin = _refill.primed(x_in, 'x', lambda b_: get_padded_extrema(b_, pad_width=pad, mode=xmode, parabolic_extrema=parabolic))
                 try:
                     locs, mags = get_padded_extrema(xin, pad_width=pad, mode=xmode, parabolic_extrema=parabolic)
                 except Exception as e:
                     viols.append(('extrema:raise:%s' % type(e).__name__, '%s raised %r' % (tag, e)))
                     continue
                 trans += 1
+                if not np.array_equal(xin, x_in):
+                    viols.append(('extrema:input-modified', '%s: the signal array was changed' % tag))
+                for m_ in _holder.swap((locs, mags), 'get_padded_extrema ' + tag):
+                    viols.append(('earlier-result-changed', m_))
                 bad = check_extrema_result(x, L0, M0, locs, mags, pad, parabolic)
                 if bad:
                     viols.append((bad[0] + (':parabolic' if parabolic else ''), '%s: %s' % (tag, bad[1])))
@@ -276,6 +284,8 @@ def check_case(case):
                     if res is None:
                         viols.append(('envelope:none', '%s: returned None' % tag2))
                         continue
+                    for m_ in _holder.swap(res, 'interp_envelope ' + tag2):
+                        viols.append(('earlier-result-changed', m_))
                     env, (el, em) = res
                     env = np.asarray(env, dtype=float)
                     if not (close(el, locs) and close(em, mags, mag=True)):
